@@ -50,6 +50,12 @@ Theorem xlsx_writer_roundtrip : forall (t : list (list text)) w, (0 < w)%nat -> 
   excel_rows (xlsx_written t) 1 = Some t.
 Proof. exact xlsx_roundtrip_rect. Qed.
 
+(* in general - ragged tables, rows without cells - the table reads back padded to its widest row, without trailing rows
+   that have no cells (what a spreadsheet can keep of it) *)
+Theorem xlsx_writer_roundtrip_general : forall (t : list (list text)),
+  excel_rows (xlsx_written t) 1 = Some (map (pad_row [] (ncols t)) (trim_rows t)).
+Proof. exact xlsx_roundtrip_general. Qed.
+
 Example c16_example :
   excel_rows [[[XStr (txt "a"); XNum (txt "1.0"); XNum (txt "1.5e+20")]; []; [XDate 2000 2 29 0 0 0; XDate 0 0 0 1 2 3; XBool true; XNum (txt "-0.0")]]; [[XStr (txt "x")]]] 1
   = Some [[txt "a"; txt "1"; txt "1.5e+20"; []]; [[]; []; []; []]; [txt "2000-02-29 00:00:00"; txt "01:02:03"; txt "1"; txt "-0"]]
